@@ -1,6 +1,7 @@
 package proxy
 
 import (
+	"context"
 	"errors"
 	"fmt"
 	"log/slog"
@@ -318,7 +319,10 @@ func (f *fetcher) dedupFetch(req *http.Request, key cache.CacheKey, clientHd *he
 	originalClientHd := *clientHd // Copy the original client headers so the shared requests don't get a modified version
 
 	fetchedObj, err, shared := f.group.Do(key.Hex, func() (any, error) {
-		return f.getFromCacheOrFetch(req, key, clientHd)
+		// The result of this fetch is shared with every coalesced request, so it must not be
+		// cancelled when the client that happens to lead the flight hangs up.
+		sharedReq := req.WithContext(context.WithoutCancel(req.Context()))
+		return f.getFromCacheOrFetch(sharedReq, key, clientHd)
 	})
 	verifhook.Point("coalesce.afterDo", key.Hex)
 	if err != nil {
